@@ -275,6 +275,11 @@ SEEDS = [
     ('for-each', S('<xsl:template match="/"><o><xsl:for-each select="r/i"><v><xsl:value-of select="position()"/></v></xsl:for-each></o></xsl:template>')),
     ('sort', S('<xsl:template match="/"><o><xsl:for-each select="r/i"><xsl:sort select="@n" data-type="number" order="descending" case-order="upper-first" lang="en"/>'
                '<xsl:value-of select="."/></xsl:for-each></o></xsl:template>')),
+    # a sort key that fails at run time for the LAST node (key k1 is not declared), after the keys of the other nodes were computed:
+    # whatever the sorter keeps must not reach the golden transformation that follows on the same transformer
+    ('sort-key-fails-late', S('<xsl:key name="k3" match="i" use="@g"/><xsl:key name="k10" match="i" use="@g"/><xsl:template match="/"><o><xsl:for-each select="r/i">'
+                              '<xsl:sort select="count(key(concat(\'k\', @n), \'x\'))" data-type="number"/><xsl:sort select="concat(@g, count(key(concat(\'k\', @n), \'y\')))"/>'
+                              '<xsl:value-of select="."/></xsl:for-each></o></xsl:template>')),
     ('value-of', S('<xsl:template match="/"><o><xsl:value-of select="r/i[2]" disable-output-escaping="no"/></o></xsl:template>')),
     ('copy', S('<xsl:template match="@*|node()"><xsl:copy use-attribute-sets="s"><xsl:apply-templates select="@*|node()"/></xsl:copy></xsl:template>'
                '<xsl:attribute-set name="s"><xsl:attribute name="k">v</xsl:attribute></xsl:attribute-set>')),
